@@ -593,7 +593,7 @@ def gen_block(rng):
                         [35, 15, 15, 17, 6, 6, 6])[0]
     case = {'kind': 'block', 'block': block, 'lines': gen_lines(rng),
             'form': rng.choice(['list', 'list', 'string', 'pieces', 'headed', 'comment', 'nested']),
-            'how': rng.choice(['ctor', 'ctor', 'setter', 'setter-bad', 'inplace'])}
+            'how': rng.choice(['ctor', 'ctor', 'setter', 'setter-bad', 'inplace', 'handed-over'])}
     if block == 'namespace':
         case['ids'] = [rng.choice(NS_IDS) for _ in range(rng.choice([0, 1, 1, 2, 2, 3, 4]))]
         case['ids_via'] = rng.choice(['list', 'NamespaceIds', 'dot', 'colons'])
@@ -680,6 +680,31 @@ def check_block(case):
                         out('fresh-block-shares-contents-with-another',
                             {'fresh': cls_name, 'leaked': fresh.contents.lines[:5]})
                         break
+            elif how == 'handed-over':
+                # the caller keeps the block it handed over and goes on filling it.  Whether a
+                # scope block sees that (aliasing) or not (defensive copy) is its business, but
+                # it cannot depend on how much the block held at hand-over: none or one line
+                def make(tb):
+                    return G.Namespace(nsi, tb) if block == 'namespace' else \
+                        (G.Struct if block == 'struct' else G.Class)(case['name'], tb)
+                some, none = build_tb(lines[:1], 'list'), build_tb([], 'list')
+                obj_some, obj = make(some), make(none)
+                for line in lines[1:]:
+                    some.append(line)
+                for line in lines:
+                    none.append(line)
+                if len(lines) >= 2:
+                    bump('contents_handed_over_then_filled')
+                    if str(obj_some) == str(make(build_tb(lines, 'list'))):
+                        bump('handed_over_block_is_aliased')
+                    elif str(obj_some) == str(make(build_tb(lines[:1], 'list'))):
+                        bump('handed_over_block_is_copied')
+                        lines = []
+                    else:
+                        out(f'{block}-contents-altered', {'what': 'handed over with one line, '
+                                                          'filled afterwards', 'text': str(obj_some)})
+                else:
+                    obj = make(build_tb(lines, 'list'))   # too short to tell the two designs apart
             elif how == 'setter':
                 obj.contents = build_tb(lines, case['form'])
                 bump('contents_replaced_by_setter')
@@ -699,7 +724,7 @@ def check_block(case):
             text = str(obj)
             if str(obj) != text:
                 out(f'{block}-render-not-repeatable', {'text': text})
-            if how != 'inplace':
+            if how not in ('inplace', 'handed-over'):
                 lines = rendered_lines(lines, case['form'])
                 bump(f'contents_form_{case["form"]}')
             check_scoped_block(case, lines, text, out, bump)
@@ -1283,6 +1308,7 @@ def main(tier: str) -> int:
                 'descriptions_ctor', 'descriptions_dtor', 'blocks_namespace', 'blocks_struct',
                 'blocks_class', 'blocks_section', 'namespace_empty_ids', 'misc_comparisons',
                 'contents_form_comment', 'contents_form_headed', 'contents_form_nested',
+                'contents_handed_over_then_filled',
                 'tus_compiled', 'classes_compiled', 'compiler_invocations_g++')
     for _item, res in run.pmap(_worker, items, chunksize=1, timeout=900):
         absorb_batch(run, res)
